@@ -232,7 +232,9 @@ func (ph *fPH) record(pi module.ProtocolInfo, b []byte) {
 	if ph.name != "consensus" {
 		return
 	}
+	ph.node.effect("send")
 	cp := append([]byte(nil), b...)
+	ph.node.observeOwn(pi.Uint16(), cp)
 	ph.node.out = append(ph.node.out, fSent{pi.Uint16(), cp})
 	if ph.node.onSend != nil {
 		ph.node.onSend(pi.Uint16(), cp)
@@ -326,6 +328,7 @@ func (c *fChain) WalletFor(dsa string) module.BaseWallet             { return ni
 type memWAL struct {
 	synced   map[string][][]byte
 	unsynced map[string][][]byte
+	node     *csNode
 }
 
 func newMemWAL() *memWAL {
@@ -351,10 +354,16 @@ type memWALWriter struct {
 }
 
 func (w *memWALWriter) WriteBytes(b []byte) (int, error) {
+	if w.w.node != nil {
+		w.w.node.effect("wal-write")
+	}
 	w.w.unsynced[w.id] = append(w.w.unsynced[w.id], append([]byte(nil), b...))
 	return len(b), nil
 }
 func (w *memWALWriter) Sync() error {
+	if w.w.node != nil {
+		w.w.node.effect("wal-sync")
+	}
 	w.w.synced[w.id] = append(w.w.synced[w.id], w.w.unsynced[w.id]...)
 	w.w.unsynced[w.id] = nil
 	return nil
@@ -438,11 +447,36 @@ type csNode struct {
 	dsReports      int
 	finCertOK      bool
 	finCertWhy     string
+
+	// C02 bookkeeping, kept by the harness across restarts
+	signed     map[string]string // (kind,height,round) of every own signed vote/proposal handed to the network -> hash of the signed content
+	equivocated string            // first conflict found
+	notDurable  string            // first own vote/proposal sent while its WAL record was not durable
+	// crash injection inside a step: effects are WAL writes, WAL syncs and network sends
+	effects int
+	failAt  int // crash (panic with errInjectedCrash) before the failAt-th effect of the current step; 0 = off
+	crashedInStep bool
+	resigned      int // own votes/proposals handed to the network after a restart
+	durableCheck  func(record []byte) bool // is this round-WAL record durable right now?
 	restarts       int
 	totalProposals int
 }
 
 var csDebug = os.Getenv("VERIF_DEBUG") != ""
+
+type injectedCrash struct{}
+
+var errInjectedCrash = injectedCrash{}
+
+// effect is called by the fakes before every externally visible effect of the
+// engine (WAL write, WAL sync, network send).
+func (n *csNode) effect(kind string) {
+	n.effects++
+	if n.failAt > 0 && n.effects == n.failAt {
+		n.failAt = 0
+		panic(errInjectedCrash)
+	}
+}
 
 var csLogger = func() log.Logger {
 	l := log.New()
@@ -457,7 +491,16 @@ func newCSNode(env *csEnv, idx int) *csNode {
 		n.wal = env.walFactory(n)
 	} else {
 		n.mwal = newMemWAL()
+		n.mwal.node = n
 		n.wal = n.mwal
+		n.durableCheck = func(rec []byte) bool {
+			for _, r := range n.mwal.synced["round"] {
+				if bytes.Equal(r, rec) {
+					return true
+				}
+			}
+			return false
+		}
 	}
 	n.boot()
 	return n
@@ -484,6 +527,10 @@ func (n *csNode) guard(fn func()) {
 	vclock.Use(n.world)
 	defer func() {
 		if x := recover(); x != nil {
+			if _, ok := x.(injectedCrash); ok {
+				n.crashedInStep = true
+				return
+			}
 			if n.panicked == "" {
 				n.panicked = fmt.Sprint(x)
 			}
@@ -684,6 +731,7 @@ func (n *csNode) projection(knownPS [][]byte) string {
 	if len(n.finalized) > 0 {
 		fmt.Fprintf(&sb, "|FIN%v", n.finalized)
 	}
+	fmt.Fprintf(&sb, "|S%s|E%s|D%s", n.signedProj(), n.equivocated, n.notDurable)
 	return sb.String()
 }
 
@@ -729,4 +777,61 @@ func (n *csNode) recountCert(blk *fBlock) (bool, string) {
 		return true, ""
 	}
 	return false, fmt.Sprintf("only %d of %d valid precommits for the finalized block in round %d", count, n.env.n, cs.commitRound)
+}
+
+// observeOwn is the C02 oracle: every vote or proposal signed by this validator
+// that reaches the network is remembered (across restarts); a second one for the
+// same (type, height, round) with different signed content is an equivocation,
+// and a message whose WAL record is not durable at the moment of sending
+// violates "remembered before sent".
+func (n *csNode) observeOwn(proto uint16, b []byte) {
+	if proto != uint16(ProtoVote) && proto != uint16(ProtoProposal) {
+		return
+	}
+	m, err := UnmarshalMessage(proto, b)
+	if err != nil {
+		return
+	}
+	var key, content string
+	switch x := m.(type) {
+	case *VoteMessage:
+		if x.address() == nil || !x.address().Equal(n.w.Address()) {
+			return
+		}
+		key = fmt.Sprintf("%v/h%d/r%d", x.Type, x.Height, x.Round)
+		content = hex.EncodeToString(x.hash())
+	case *ProposalMessage:
+		if x.address() == nil || !x.address().Equal(n.w.Address()) {
+			return
+		}
+		key = fmt.Sprintf("proposal/h%d/r%d", x.Height, x.Round)
+		content = hex.EncodeToString(x.hash())
+	}
+	if n.signed == nil {
+		n.signed = map[string]string{}
+	}
+	if old, ok := n.signed[key]; ok && old != content && n.equivocated == "" {
+		n.equivocated = fmt.Sprintf("%s signed twice with different content (%s… vs %s…) after %d restart(s)", key, old[:10], content[:10], n.restarts)
+	}
+	n.signed[key] = content
+	if n.restarts > 0 {
+		n.resigned++
+	}
+	if n.durableCheck != nil && n.notDurable == "" {
+		rec := make([]byte, 2+len(b))
+		rec[0], rec[1] = byte(proto>>8), byte(proto)
+		copy(rec[2:], b)
+		if !n.durableCheck(rec) {
+			n.notDurable = fmt.Sprintf("%s handed to the network while its WAL record is not durable", key)
+		}
+	}
+}
+
+func (n *csNode) signedProj() string {
+	ks := make([]string, 0, len(n.signed))
+	for k, v := range n.signed {
+		ks = append(ks, k+"="+v[:8])
+	}
+	sort.Strings(ks)
+	return strings.Join(ks, ",")
 }
